@@ -97,14 +97,30 @@ class MeiParser(object):
         scores_el = self.music_el.findall(self._ns_name("score", all=True))
         if len(scores_el) != 1:
             raise Exception("Only MEI with a single score element are supported")
-        sections_el = scores_el[0].findall(self._ns_name("section"))
+        initial_scoredef_el = scores_el[0].find(self._ns_name("scoreDef"))
         position = 0
         measure_number = 1
-        for section_el in sections_el:
-            # insert in parts all elements except ties
-            position, measure_number = self._handle_section(
-                section_el, list(score.iter_parts(self.parts)), position, measure_number
-            )
+        for element in scores_el[0]:
+            if element.tag == self._ns_name("section"):
+                # insert in parts all elements except ties
+                position, measure_number = self._handle_section(
+                    element,
+                    list(score.iter_parts(self.parts)),
+                    position,
+                    measure_number,
+                )
+            elif element is not initial_scoredef_el and element.tag in (
+                self._ns_name("scoreDef"),
+                self._ns_name("ending"),
+            ):
+                # a signature change or an ending standing between the sections,
+                # directly in the score element: handled as inside a section
+                position, measure_number = self._handle_section(
+                    [element],
+                    list(score.iter_parts(self.parts)),
+                    position,
+                    measure_number,
+                )
 
         # handles ties
         self._tie_notes(scores_el[0], self.parts)
